@@ -271,15 +271,32 @@ impl<const D: usize> OrientedBoundingBox<D> {
 }
 
 fn inertia_matrix<const D: usize>(points: &[PointND<D>]) -> Matrix<D> {
-    let centroid: PointND<D> = points.par_iter().sum();
+    // Floating-point sums depend on the order of the additions.  Summing
+    // fixed-size blocks and adding the block sums in order gives the same
+    // matrix, hence the same frame, whatever the number of threads.
+    const BLOCK_LEN: usize = 4096;
+
+    let centroid: PointND<D> = points
+        .par_chunks(BLOCK_LEN)
+        .map(|block| block.iter().sum::<PointND<D>>())
+        .collect::<Vec<_>>()
+        .into_iter()
+        .sum();
     let centroid: PointND<D> = centroid / points.len() as f64;
 
     points
-        .par_iter()
-        .map(|point| {
-            let offset = point - centroid;
-            offset * offset.transpose()
+        .par_chunks(BLOCK_LEN)
+        .map(|block| {
+            block
+                .iter()
+                .map(|point| {
+                    let offset = point - centroid;
+                    offset * offset.transpose()
+                })
+                .sum::<Matrix<D>>()
         })
+        .collect::<Vec<_>>()
+        .into_iter()
         .sum()
 }
 
